@@ -136,6 +136,9 @@ def recvPackets (s : Sock) : Nat → Acc → Q (List Bytes)
       recvPackets s fuel a'
     else Q.lift (finish a)
 
+/-- the receive loop from its initial state -/
+def recvAll (s : Sock) : Q (List Bytes) := fun w => recvPackets s (queued s w + 1) Acc.init w
+
 /-- single-packet mode: the split header is skipped unread and the one packet is the response -/
 def readSingle : Par Bytes := do
   moveCursor 11
@@ -149,7 +152,7 @@ def getServerPacketsImpl (s : Sock) (payload : Bytes) (single : Bool) : Q (List 
     let data ← receive s none 0
     let rest ← parse readSingle data
     pure [rest]
-  else fun w => recvPackets s (queued s w + 1) Acc.init w
+  else recvAll s
 
 /-- `get_server_packets` -/
 def getServerPackets (s : Sock) (retries : Nat) (payload : Bytes) (single : Bool) : Q (List Bytes) :=
